@@ -293,7 +293,10 @@ class Session:
         self.bp_addr = set()
         self.stable_bp_addr = set()     # breakpoints in force for the whole current run interval
         self.union_bp_addr = set()      # breakpoints in force at some time of the current run interval
+        self.epochs = []                # [first index, end index or None, addresses]: breakpoint lists known to be in force
+                                        # for the instructions of that index range of the current run interval
         self.bp_changed_running = False
+        self.configured = False
         self.cur = None                 # instruction index while stopped
         self.running = False
         self.lo = 0                     # first index that executes in the current run interval
@@ -384,6 +387,14 @@ class Session:
                     self.fail("oracle", "instruction %d at line %d (breakpoint) executed without a stop there; machine now at instruction %d line %d" % (
                         k, prog.line_of.get(ref.st(k)[0]), idx, want_line), klass=self.self_loop_class(k))
                     break
+            for start, end, addrs in self.epochs:
+                hi = idx if end is None else min(end, idx)
+                bad = next((k for k in range(start, hi) if ref.st(k)[0] in addrs), None)
+                if bad is not None:
+                    self.fail("oracle", "instruction %d at line %d executed although a breakpoint on it was in force (list acknowledged before "
+                              "instruction %d) and no stop was reported; machine now at instruction %d line %d" % (
+                                  bad, prog.line_of.get(ref.st(bad)[0]), start, idx, want_line), klass=self.self_loop_class(bad))
+                    break
             if idx < self.lo - (1 if prev is not None else 0):
                 self.fail("oracle", "machine went backwards: instruction %d after %d" % (idx, prev))
             if command in ("launch", "continue") and s[0] not in self.union_bp_addr:
@@ -415,7 +426,23 @@ class Session:
         return classify(self.model, self.prog, "Known_stepout_stack_dirty", i, call=c)
 
     # -- commands
+    def locate_running(self):
+        """position of the (possibly running) machine at the time of a registers request, or None"""
+        r = self.d.registers()
+        self.stats["requests"] += 1
+        if not isinstance(r, dict):
+            raise Failure("error", "variables failed: %r" % r)
+        return self.prog.ref.locate(r["CYC"])
+
     def set_breakpoints(self, lines):
+        """While the machine runs freely the request is bracketed by two position reads: every instruction before the
+        first read ran under the old list; every instruction after the one the machine is at in the second read (its
+        breakpoint check may already have passed) runs under the new list, because the response has been received."""
+        bracket = self.running and self.configured
+        if bracket:
+            before = self.locate_running()
+            if self.epochs and self.epochs[-1][1] is None:
+                self.epochs[-1][1] = before if before is not None else self.epochs[-1][0]
         r = self.req("setBreakpoints", {"source": {"path": self.d.source_path()}, "breakpoints": [{"line": l} for l in lines]})
         self.stats["setbps"] += 1
         if not r.ok:
@@ -424,6 +451,11 @@ class Session:
         if got != sorted(lines):
             self.fail("oracle", "setBreakpoints(%r) verified lines %r" % (sorted(lines), got))
         new = self.prog.bp_addresses(lines)
+        if bracket:
+            after = self.locate_running()
+            self.stats["setbps_running"] = self.stats.get("setbps_running", 0) + 1
+            if after is not None:
+                self.epochs.append([after + 1, None, set(new)])
         self.stable_bp_addr = (self.stable_bp_addr & new) if self.running else set(new)
         self.union_bp_addr = (self.union_bp_addr | new) if self.running else set(new)
         self.bp_changed_running = self.running
@@ -455,6 +487,7 @@ class Session:
         self.lo = self.cur + 1 if self.cur is not None else 0
         self.stable_bp_addr = set(self.bp_addr)
         self.union_bp_addr = set(self.bp_addr)
+        self.epochs = [[self.lo, None, set(self.bp_addr)]]
         self.bp_changed_running = False
         self.running = True
 
@@ -548,6 +581,8 @@ class Session:
             raise Failure("error", "configurationDone failed: %r" % r)
         self.trace.append(("configurationDone",))
         self.running, self.lo, self.cur = True, 0, None
+        self.configured = True
+        self.epochs = [[0, None, set(self.bp_addr)]]
         if self.bp_reachable(0):
             self.wait_bp_stop("launch")
         if self.script is not None:
@@ -558,13 +593,18 @@ class Session:
             self.delay()
             if self.running:
                 k = rng.random()
-                if k < 0.62 or not self.bp_reachable(self.lo):
+                if k < 0.50 or (k >= 0.80 and not self.bp_reachable(self.lo)):
                     if k > 0.9:
                         self._query_running()
                     self._do("pause")
-                elif k < 0.72:
+                elif k < 0.76:
                     self._do("setBreakpoints", rng.sample(prog.code_lines, rng.randrange(0, 3)))
-                elif k < 0.8:
+                    self.delay()
+                    if self.bp_reachable(self.lo) and rng.random() < 0.3:
+                        self.wait_bp_stop("continue")     # the new list must stop the free run
+                    else:
+                        self._do("pause")                 # ... or at least nothing on it may have executed meanwhile
+                elif k < 0.84:
                     self._query_running()
                 else:
                     self.wait_bp_stop("continue")
@@ -735,6 +775,11 @@ def corpus_sessions(mos, probe, rng, model=None):
                                           script=[("setBreakpoints", [8]), ("next",), ("stepOut",), ("stepOut",)], model=model)))
     out.append(("recursive_stepout", Session(mos, p3, rng.randrange(1 << 30), None, 0, 0,
                                              script=[("setBreakpoints", [10]), ("stepOut",), ("stepOut",), ("stepOut",), ("stepOut",)], model=model)))
+    pl = Program(PAUSE_LOOP, probe)
+    out.append(("setbps_while_running", Session(mos, pl, rng.randrange(1 << 30), rng.randrange(1 << 30), 1500, 0,
+                                                script=[("setBreakpoints", []), ("sleep", 120), ("setBreakpoints", [5]), ("sleep", 120), ("pause",),
+                                                        ("setBreakpoints", []), ("continue",), ("sleep", 120), ("setBreakpoints", [6]), ("wait",)],
+                                                model=model)))
     out.append(("early_requests", Session(mos, p, rng.randrange(1 << 30), None, 0, 0,
                                           script=[("setBreakpoints", [8]), ("early", ["pause", "continue", "next", "stepIn", "stepOut"]),
                                                   ("stepIn",), ("stepOut",)], model=model)))
